@@ -31,7 +31,7 @@ Extensions (additive; used by specs_geodesy, none changes the output of older sp
               `e[m] = <expr with v[m]>`, `e[m] op= …` (general mask assignment), `if any(m): <masked body>`;
               `inrange(x, lo, hi, exclude=…)` (-> `<name>_rejects`); tuple locals, `f(*t)`, np.column_stack
   expressions: == !=, np.ones/zeros/empty (shape glue), np.clip, np.sign, np.sum(<tuple expr>, axis=1),
-              np.logical_and/or/not, ~m, np.isnan, abs(), any()/all(), `.copy()`
+              np.logical_and/or/not, ~m, np.isnan, abs(), any()/all(), `.copy()`, `.astype(float)` (identity: the model has one real / binary64 type)
 
 Complex variant (additive; spec keys "variant" + "complex_params", used by specs/em.py):
   a second translation `<name>_<variant>` of the same function in which the listed parameters are
@@ -451,6 +451,13 @@ class Translator:
         if isinstance(f, ast.Attribute) and f.attr == "copy" and not args \
                 and not (isinstance(f.value, ast.Name) and f.value.id == "np"):
             return self.expr(f.value, d, env)          # value copy: pointwise identity
+        if isinstance(f, ast.Attribute) and f.attr == "astype" and len(args) == 1 and not e.keywords \
+                and not (isinstance(f.value, ast.Name) and f.value.id == "np") \
+                and ((isinstance(args[0], ast.Name) and args[0].id == "float")
+                     or (isinstance(args[0], ast.Attribute) and isinstance(args[0].value, ast.Name)
+                         and args[0].value.id == "np" and args[0].attr in ("float64", "double"))):
+            # conversion to double precision: the identity over the reals and on Lean's (binary64) Float
+            return self.expr(f.value, d, env)
         if isinstance(f, ast.Attribute) and f.attr in ("ravel", "flatten") and not args:
             return self.expr(f.value, d, env)          # shape glue: pointwise identity
         if isinstance(f, ast.Attribute) and f.attr == "reshape" \
